@@ -168,10 +168,7 @@ func checkOn(ra *routeApp, c Case) vk.Verdict {
 	} else {
 		v.NonTrivial = ra.hit // a noise path is interesting when the pattern happens to match it
 	}
-	p := c.Path
-	if c.Unesc {
-		p = pctDecode(p)
-	}
+	p := c.Path // as it is sent: the configuration handed to RoutePatternMatch says whether it is to be percent-decoded
 	rpm := fiber.RoutePatternMatch(p, c.Pattern, c.cfg())
 	if rpm != ra.hit {
 		return vk.Failf("RoutePatternMatch(%q, %q, cs=%v strict=%v) = %v but dispatching %q to an app holding only that route ran the handler: %v",
